@@ -98,6 +98,11 @@ def _acl_lines(host: str, name: str, acl) -> List[str]:
     return out
 
 
+def _flag(v) -> str:
+    """A boolean as built: 1 / 0, or its repr when it is not a boolean."""
+    return ("1" if v else "0") if isinstance(v, bool) else repr(v)
+
+
 def _metric(m) -> str:
     return str(int(m)) if float(m) == int(m) else repr(float(m))
 
@@ -124,7 +129,8 @@ def inventory(game, cfg: Dict) -> List[str]:
                 fsd.append("-")
         out.append(f"node {h} {node._discriminator} {node.operating_state.name} sud={_num(c.start_up_duration)} sdd={_num(c.shut_down_duration)} "
                    f"scan={_num(c.node_scan_duration)} fsd={fsd[0]}/{fsd[1]} "
-                   f"dns={_o(getattr(c, 'dns_server', None))} gw={_o(getattr(c, 'default_gateway', None))}")
+                   f"dns={_o(getattr(c, 'dns_server', None))} gw={_o(getattr(c, 'default_gateway', None))} "
+                   f"flags={_flag(c.revealed_to_red)}/{_num(c.start_up_countdown)}/{_num(c.shut_down_countdown)}/{_flag(c.is_resetting)}")
         for num, nic in node.network_interface.items():
             ip = getattr(nic, "ip_address", None)
             mask = getattr(nic, "subnet_mask", None)
@@ -448,7 +454,8 @@ def scenario_lines(cfg: Dict) -> List[str]:
             raise Unmodelled(f"node type {t}")
         known = {"hostname", "type", "operating_state", "start_up_duration", "shut_down_duration", "dns_server", "default_gateway",
                  "ip_address", "subnet_mask", "network_interfaces", "services", "applications", "users", "folders", "num_ports", "ports",
-                 "acl", "routes", "default_route", "router_interface", "wireless_access_point", "node_scan_duration"}
+                 "acl", "routes", "default_route", "router_interface", "wireless_access_point", "node_scan_duration",
+                 "revealed_to_red", "start_up_countdown", "shut_down_countdown", "is_resetting"}
         if t == "wireless-router" and (n.get("ports") or n.get("num_ports")):
             raise Unmodelled("wireless router with wired ports")
         extra = set(n) - known
@@ -459,6 +466,11 @@ def scenario_lines(cfg: Dict) -> List[str]:
                      f"{_ipt(n.get('ip_address'))} {_ipt(n.get('subnet_mask'))} {_o(n.get('num_ports'))}")
         if "node_scan_duration" in n:
             lines.append(f"nodescan {int(n['node_scan_duration'])}")
+        if any(k in n for k in ("revealed_to_red", "start_up_countdown", "shut_down_countdown", "is_resetting")):
+            import pydantic
+            rb = lambda k: 1 if pydantic.TypeAdapter(bool).validate_python(n.get(k, False)) else 0   # the value as a bool field reads it
+            ri = lambda k: pydantic.TypeAdapter(int).validate_python(n.get(k, 0))
+            lines.append(f"nodeflags {rb('revealed_to_red')} {ri('start_up_countdown')} {ri('shut_down_countdown')} {rb('is_resetting')}")
         if t == "firewall":
             for k, v in (n.get("ports") or {}).items():
                 lines.append(f"fwport {k} {v['ip_address']} {_ipt(v.get('subnet_mask'))}")
